@@ -191,15 +191,22 @@ class SArr(np.ndarray):
     _ld = None
 
     def __new__(cls, arr, ld='infer'):
+        """always allocates (the result OWNS its data, like a freshly computed
+        numpy array); use view_sarr() to re-type an existing object array"""
         a = np.asarray(arr)
         if a.dtype != object:
             if ld == 'infer':
                 ld = a.dtype
-            b = np.empty(a.shape, dtype=object)
-            for idx in np.ndindex(*a.shape):
-                b[idx] = S.lift(a[idx])
-            a = b
-        obj = a.view(cls)
+        obj = np.ndarray.__new__(cls, a.shape, dtype=object)
+        flat_src = a.reshape(-1) if a.size else a.ravel()
+        dst = np.ndarray.view(obj, np.ndarray).reshape(-1) if a.size else None
+        if a.size:
+            if a.dtype != object:
+                for i in range(flat_src.shape[0]):
+                    dst[i] = S.lift(flat_src[i])
+            else:
+                tmp = np.array(a, dtype=object, copy=True).reshape(-1)
+                dst[...] = tmp
         if ld == 'infer':
             ld = infer_ld(a)
         obj._ld = None if ld is None else np.dtype(ld)
@@ -316,7 +323,10 @@ class SArr(np.ndarray):
 
     def __array_wrap__(self, arr, context=None, return_scalar=False):
         if isinstance(arr, np.ndarray) and real_dtype(arr) == object:
-            r = arr.view(SArr)
+            if isinstance(arr, SArr):
+                r = arr
+            else:
+                r = SArr(arr, self._ld)
             if getattr(r, '_ld', None) is None:
                 r._ld = self._ld
             if return_scalar and r.ndim == 0:
@@ -327,13 +337,18 @@ class SArr(np.ndarray):
         return arr
 
 
+def view_sarr(a, ld='infer'):
+    """re-type an existing object ndarray as SArr sharing its memory"""
+    r = a.view(SArr)
+    r._ld = infer_ld(a) if ld == 'infer' else (None if ld is None else np.dtype(ld))
+    return r
+
+
 def _wrap(res, ld):
     if isinstance(res, tuple):
         return tuple(_wrap(r, ld) for r in res)
     if isinstance(res, np.ndarray) and real_dtype(res) == object:
-        r = res.view(SArr)
-        r._ld = ld
-        return r
+        return SArr(res, ld)
     return res
 
 
@@ -699,9 +714,7 @@ class NumpyProxy(object):
             if obj.dtype == object:
                 flat = obj.ravel()
                 if flat.size and all(isinstance(e, (Sym, SymC, int, float, complex, np.number)) for e in flat):
-                    r = obj.view(SArr)
-                    r._ld = infer_ld(obj)
-                    return r
+                    return view_sarr(obj)
                 return obj
             if obj.dtype.kind in 'fc':
                 return SArr(obj, obj.dtype)
@@ -818,6 +831,9 @@ _real_special = {}
 
 
 def _atom1(name, x):
+    if name == 'expit':
+        e = x.exp()
+        return e / (1 + e)
     ctx = S.current_ctx()
     if ctx is not None:
         v = ctx.atom_value(name, x)
